@@ -17,7 +17,7 @@ NoAllFlagSets == SUBSET (Flags \ {"a"})
 CoreFlagSets == SUBSET {"m", "c", "o"}
 DefaultOnly  == {DefaultFlags}
 DefaultAndMissing == {DefaultFlags, {"m"}, {"c"}}
-AllEnv   == {"Edit", "Touch", "DeleteArt", "Truncate", "StripKey", "Replace", "MakeCsr"}
+AllEnv   == {"Edit", "Touch", "DeleteArt", "Truncate", "StripKey", "ResaveArt", "Replace", "MakeCsr"}
 WideEnv  == AllEnv \cup {"EditProfile", "Expire"}
 IssuerEnv == AllEnv \cup {"SetIssuer"}
 FullEnv  == WideEnv \cup {"SetIssuer"}
